@@ -12,7 +12,7 @@ import types
 from ..lib import coqlit as L
 
 IMPORTS = ("From LV Require Import Common.Cases GainLoss.RoseTree GainLoss.Replay GainLoss.GetGls "
-           "GainLoss.Parsimony GainLoss.GetGLSr GainLoss.TopDown GainLoss.GainLossExec.")
+           "GainLoss.Parsimony GainLoss.GetGLSr GainLoss.TopDown GainLoss.PhyBoGlue GainLoss.GainLossExec.")
 
 WEIGHTS = [(1, 1), (2, 1), (1, 2), (3, 2), (2, 3), (1, 3), (5, 1), (3, 1)]
 
@@ -324,12 +324,126 @@ def render_td(case, res):
 
 
 # ----------------------------------------------------------------------------
+# PhyBo.get_GLS on a small generated dataset (wordlist file + tree), three modes
+
+def gen_phybo_case(rng):
+    n = rng.randint(4, 7)
+    t = random_tree(rng, n, rng.choice([0.0, 0.3, 0.6]), 0.0)
+    langs = leaves(t)
+    rows, wid, cog = [], 1, 1
+    for ci in range(rng.randint(3, 6)):
+        have = [x for x in langs if rng.random() > rng.choice([0.0, 0.2, 0.4])] or langs[:1]
+        k = rng.randint(1, 3)
+        for x in have:
+            rows.append((wid, x, ci, cog + rng.randrange(k)))
+            wid += 1
+        cog += k
+    seen = {r[1] for r in rows}
+    for x in langs:                  # the tree's tips must be the wordlist's languages
+        if x not in seen:
+            rows.append((wid, x, 0, rows[0][3]))
+            wid += 1
+    g, l = rng.choice(WEIGHTS)
+    return {"kind": "phybo", "tree": t, "rows": rows,
+            "weighted": {"g": g, "l": l, "gpl": rng.choice([1, 2, n]), "push": rng.random() < 0.5,
+                         "md": rng.choice([0, -1])},
+            "restriction": {"r": rng.choice([2, 3, 4, 5]), "gpl": rng.choice([1, 2, 3]),
+                            "push": rng.random() < 0.5, "md": rng.choice([0, -1])},
+            "topdown": {"r": rng.choice([1, 2, 3, 4]), "md": rng.choice([0, -1])},
+            "singletons": rng.random() < 0.5}
+
+
+def phybo_newick(t):
+    """The root must be called 'root' (PhyBo's radial layout looks it up by that name)."""
+    return newick(t).rsplit(")", 1)[0] + ")root;"
+
+
+def run_phybo(case):
+    import contextlib
+    import io
+    import logging
+    import os
+    import shutil
+    import tempfile
+    from lingpy.compare.phylogeny import PhyBo
+    from ..lib import env
+    t = case["tree"]
+    root = t[0]
+    base = os.path.join(env.BUILD, "run", "phybo_tmp")
+    os.makedirs(base, exist_ok=True)
+    d = tempfile.mkdtemp(dir=base)
+    try:
+        path = os.path.join(d, "d.qlc")
+        with open(path, "w") as f:
+            f.write("ID\tDOCULECT\tCONCEPT\tIPA\tCOGID\n")
+            for wid, lang, con, cog in case["rows"]:
+                f.write("%d\tn%d\tc%d\tw\t%d\n" % (wid, lang, con, cog))
+        items = []
+        logging.disable(logging.CRITICAL)
+        with contextlib.redirect_stderr(io.StringIO()):
+            phy = PhyBo(path, tree=phybo_newick(t), output_dir=os.path.join(d, "out"),
+                        singletons=case["singletons"])
+
+            def name_id(x):
+                return root if x == "root" else nid(x)
+
+            def rb(node):
+                return (name_id(node.Name), [rb(c) for c in node.Children])
+
+            tree_read = rb(phy.tree)
+            taxa = [name_id(x) for x in phy.taxa]
+            for mode in ("weighted", "restriction", "topdown"):
+                cfg = case[mode]
+                before = {cog: list(phy.paps[cog]) for cog in phy.cogs}
+                if mode == "weighted":
+                    phy.get_GLS(mode="weighted", ratio=(cfg["g"], cfg["l"]), gpl=cfg["gpl"], push_gains=cfg["push"],
+                                missing_data=cfg["md"])
+                    glm = "w-%d-%d" % (cfg["g"], cfg["l"])
+                elif mode == "restriction":
+                    try:
+                        phy.get_GLS(mode="restriction", restriction=cfg["r"], gpl=cfg["gpl"],
+                                    push_gains=cfg["push"], missing_data=cfg["md"])
+                    except (KeyError, ValueError, IndexError):
+                        continue          # restriction too tight for some pattern: documented guard
+                    glm = "r-%d" % cfg["r"]
+                else:
+                    phy.get_GLS(mode="topdown", restriction=cfg["r"], missing_data=cfg["md"])
+                    glm = "t-%d" % cfg["r"]
+                for cog in phy.cogs:
+                    gls, noo = phy.gls[glm][cog]
+                    if noo != sum(e for _, e in gls):
+                        raise AssertionError("number of origins is not the number of gains")
+                    items.append({"mode": mode, "cog": str(cog), "paps": before[cog],
+                                  "out": [(name_id(a), int(b)) for a, b in gls]})
+        return {"tree": tree_read, "taxa": taxa, "items": items, "out": [x for it in items for x in it["out"]]}
+    finally:
+        logging.disable(logging.NOTSET)
+        shutil.rmtree(d, ignore_errors=True)
+
+
+def render_phybo(case, res):
+    items = []
+    for it in res["items"]:
+        cfg = case[it["mode"]]
+        if it["mode"] == "weighted":
+            m = "(GWeighted %s %s)" % (L.z(cfg["g"]), L.z(cfg["l"]))
+        elif it["mode"] == "restriction":
+            m = "(GRestriction %s)" % L.z(cfg["r"])
+        else:
+            m = "(GTopDown %s)" % L.z(cfg["r"])
+        items.append(L.record("phybo_item", [
+            m, L.z(cfg.get("gpl", 1)), L.b(cfg.get("push", True)), L.z(cfg["md"]), L.zlist(it["paps"]),
+            L.b(it["mode"] != "topdown"), story_lit(it["out"])]))
+    return L.record("phybo_case", [tree_lit(res["tree"]), L.zlist(res["taxa"]), L.lst(items)])
+
+
+# ----------------------------------------------------------------------------
 # driver interface (dispatch on case["kind"])
 
-RUN = {"get_gls": run_get_gls, "glsr": run_glsr, "topdown": run_td}
-RENDER = {"get_gls": render_get_gls, "glsr": render_glsr, "topdown": render_td}
+RUN = {"get_gls": run_get_gls, "glsr": run_glsr, "topdown": run_td, "phybo": run_phybo}
+RENDER = {"get_gls": render_get_gls, "glsr": render_glsr, "topdown": render_td, "phybo": render_phybo}
 CASE_TYPES = {"get_gls": ("gls_case", "gls_case_code"), "glsr": ("glsr_case", "glsr_case_code"),
-              "topdown": ("td_case", "td_case_code")}
+              "topdown": ("td_case", "td_case_code"), "phybo": ("phybo_case", "phybo_case_code")}
 
 
 def run_impl(case):
@@ -346,7 +460,8 @@ BITS = {0: "correspondence: model output differs from implementation output",
         3: "C08: gpl >= number of leaves but the weight of the returned scenario is not the minimum",
         4: "C08: all leaves below the common ancestor are present but the result is not the single gain there",
         5: "exhaustive enumeration of labellings disagrees with the dynamic programme",
-        6: "some node carries both a gain and a loss event"}
+        6: "some node carries both a gain and a loss event",
+        7: "PhyBo: a pattern does not have one entry per taxon"}
 
 
 def nontrivial(case, res):
@@ -395,6 +510,15 @@ def remove_leaf(t, x):
 
 
 def shrink(case):
+    if case["kind"] == "phybo":
+        cogs = sorted({r[3] for r in case["rows"]})
+        for cg_ in cogs:                        # drop one cognate set
+            rows = [r for r in case["rows"] if r[3] != cg_]
+            if rows:
+                c = dict(case)
+                c["rows"] = rows
+                yield c
+        return
     t, taxa, paps = case["tree"], case["taxa"], case["paps"]
     if len(taxa) > 2:
         for i, x in enumerate(taxa):
@@ -424,6 +548,9 @@ def shrink(case):
 
 
 def classify(case, res):
+    if case["kind"] == "phybo":
+        return ["kind=phybo", "languages=%d" % len(res["taxa"]), "items=%d" % min(len(res["items"]) // 10 * 10, 60),
+                "singletons_excluded" if case["singletons"] else "singletons_kept"]
     n = len(case["taxa"])
     out = res.get("out") or []
     if res.get("out") is None:
